@@ -192,8 +192,6 @@ def main(tier):
                     meta[rid] = (baseid, nm + ":root=" + spelling, m, main_text, files)
         if n % (1 if tier == "thorough" else 10) == 0:
             for nm, main_blocks, files, dirs, noread in reject_cases(d):
-                if nm == "unreadable" and os.geteuid() == 0:
-                    continue      # root reads files of mode 000: the case cannot be set up
                 cid = "x%d_%s" % (n, nm)
                 main_text = apidoc.render(main_blocks)[0]
                 ff = {"main.jst": b64(main_text)}
